@@ -477,12 +477,30 @@ def run(ctx):
         d2, err = run_both(ctx, "search", "-seed %d -n 60 -img 120 -exhaustive 6 -ndec 0" % (ctx.seed + 1000003))
         if d2 is None:
             return []
-        return judge(d2)[4]
+        ks = {kf.get("signature") for kf in vlib.load_known_findings()
+              if kf.get("status") == "open" and kf.get("property") == "C05"}
+        return [f for f in judge(d2)[4] if f.get("signature") not in ks]
 
     mm = [(m[0], (m[1] or "")[:600], (m[2] or "")[:600]) for m in all_mism]
     if all_mism and not all_fail:
         # keep the first disagreeing case replayable
         ctx.notes.append("first model/impl disagreement: " + json.dumps(all_mism[0][3])[:4000])
+    # failures whose signature is an open known finding are reported as such (once per signature) and do not
+    # hide anything else: the remaining failures and any model/impl disagreement go through the usual verdict
+    known_sigs = {kf.get("signature") for kf in vlib.load_known_findings()
+                  if kf.get("status") == "open" and kf.get("property") == "C05"}
+    seen = set()
+    unknown = []
+    for f in all_fail:
+        if f.get("signature") in known_sigs:
+            if f["signature"] not in seen:
+                seen.add(f["signature"])
+                ctx.report_violation(f["name"], dict(case=f.get("case"), kind="failing-input"),
+                                     signature=f["signature"], what=f.get("what", ""))
+        else:
+            unknown.append(f)
+    known_count = len(all_fail) - len(unknown)
+    all_fail = unknown
     vlib.standard_verdict(ctx, proofs_ok, mm, all_fail, search_fn=search,
                           corr_name="Wal/Model.v vs wal.Create/Save/SaveSnapshot/cut (segment bytes) and "
                                     "ValidSnapshotEntries/Verify/Open+ReadAll/Repair on crash images")
@@ -503,6 +521,7 @@ def run(ctx):
                          "(only the crafted corpus case is expected)"
                          % (stats_all.get("nocrc_evaluated", 0), stats_all.get("nocrc_false", 0)),
         mismatches=len(all_mism),
+        known_finding_cases=known_count,
         samples=samples[:6],
     ), assumptions=[
         "crash model: bytes covered by the last completed fdatasync of the tail segment are fixed; later bytes may be "
